@@ -51,7 +51,11 @@ namespace details {
             }
             else
             {
-                return read_16bit_uuid( bytes_ ) == attr.uuid;
+                // attributes with a 128 bit uuid are marked with internal_128bit_uuid in the uuid field; that marker
+                // is not the attribute's type and must not be found by a client asking for it
+                const std::uint16_t uuid = read_16bit_uuid( bytes_ );
+
+                return uuid == attr.uuid && uuid != bits( gatt_uuids::internal_128bit_uuid );
             }
         }
 
